@@ -980,6 +980,14 @@ impl<'de> serde::de::Visitor<'de> for ParsedValueSeed<'_> {
     where
         E: serde::de::Error,
     {
+        if !v.is_finite() {
+            // NaN and the infinities (yaml `.nan` / `.inf`, json5 `NaN` / `Infinity`, overflowing literals)
+            // can't be written as a float literal in the generated code
+            return Err(serde::de::Error::invalid_value(
+                serde::de::Unexpected::Float(v),
+                &"a finite number",
+            ));
+        }
         Ok(ParsedValue::Literal(Literal::Float(v)))
     }
 
@@ -1091,6 +1099,12 @@ impl Visitor<'_> for LiteralVisitor {
     where
         E: serde::de::Error,
     {
+        if !v.is_finite() {
+            return Err(serde::de::Error::invalid_value(
+                serde::de::Unexpected::Float(v),
+                &"a finite number",
+            ));
+        }
         Ok(Literal::Float(v))
     }
 
